@@ -90,6 +90,7 @@ type MWStep struct {
 	Ref   int    `json:"ref,omitempty"`  // retry: index into the list of statements issued so far
 	Perm  []int  `json:"perm,omitempty"` // merge order code for the open(s) of this step
 	Mask  int    `json:"mask,omitempty"` // partial: which current versions the opener is shown
+	Cut   int64  `json:"cut,omitempty"`  // vacuum: cutoff, seconds after baseTime; -1 = year 2100
 }
 
 type MWCase struct {
@@ -97,6 +98,8 @@ type MWCase struct {
 	NWriters int      `json:"nwriters"`
 	NKeys    int      `json:"nkeys"`
 	Steps    []MWStep `json:"steps"`
+	Mode     string   `json:"mode,omitempty"` // "", "c09", "c10": which vacuum oracles are active
+	SmallVals bool    `json:"small_vals,omitempty"`
 }
 
 type mwGenCfg struct {
@@ -106,6 +109,9 @@ type mwGenCfg struct {
 	wStmt, wTxn, wRefresh, wRetry, wPartial, wObserve int
 	wIns, wUpd, wDel int
 	multiRow     bool
+	wVacuum      int
+	mode         string
+	smallVals    bool
 }
 
 func genPerm(t *rapid.T, label string) []int {
@@ -118,14 +124,22 @@ func genMWCase(t *rapid.T, g mwGenCfg) MWCase {
 		NWriters: rapid.IntRange(1, g.maxWriters).Draw(t, "nwriters"),
 		NKeys:    rapid.SampledFrom(g.keyChoices).Draw(t, "nkeys"),
 	}
-	cfg := stmtGenCfg{keys: intKeys(c.NKeys), cols: wideCols, vals: smallVals(), multiRow: g.multiRow, wIns: g.wIns, wUpd: g.wUpd, wDel: g.wDel}
+	vals := smallVals()
+	if g.smallVals {
+		// few values, so that a table often returns to an earlier content
+		vals = rapid.SampledFrom([]Val{vNull(), vInt(1), vInt(2)})
+	}
+	c.Mode, c.SmallVals = g.mode, g.smallVals
+	cfg := stmtGenCfg{keys: intKeys(c.NKeys), cols: wideCols, vals: vals, multiRow: g.multiRow, wIns: g.wIns, wUpd: g.wUpd, wDel: g.wDel}
 	n := rapid.IntRange(2, g.maxSteps).Draw(t, "nsteps")
-	tot := g.wStmt + g.wTxn + g.wRefresh + g.wRetry + g.wPartial + g.wObserve
+	tot := g.wStmt + g.wTxn + g.wRefresh + g.wRetry + g.wPartial + g.wObserve + g.wVacuum
 	nstmts := 0
+	var times []int64
 	stamp := func(s *Stmt) {
 		slot := rapid.IntRange(0, 40).Draw(t, "slot")
 		s.T = int64(slot*256 + nstmts + 1) // unique per statement, arbitrary order
 		nstmts++
+		times = append(times, s.T)
 	}
 	for i := 0; i < n; i++ {
 		r := rapid.IntRange(0, tot-1).Draw(t, "op")
@@ -152,8 +166,24 @@ func genMWCase(t *rapid.T, g mwGenCfg) MWCase {
 			}
 		case r < g.wStmt+g.wTxn+g.wRefresh+g.wRetry+g.wPartial:
 			c.Steps = append(c.Steps, MWStep{Op: "partial", Perm: genPerm(t, "perm"), Mask: rapid.IntRange(1, 63).Draw(t, "mask")})
-		default:
+		case r < g.wStmt+g.wTxn+g.wRefresh+g.wRetry+g.wPartial+g.wObserve:
 			c.Steps = append(c.Steps, MWStep{Op: "observe", Perm: genPerm(t, "perm")})
+		default:
+			// cutoffs: before everything, equal to / just after a write time, after all, year 2100
+			cut := int64(0)
+			switch rapid.IntRange(0, 5).Draw(t, "cutkind") {
+			case 0:
+				cut = 0
+			case 1, 2:
+				if len(times) > 0 {
+					cut = rapid.SampledFrom(times).Draw(t, "cutat") + int64(rapid.IntRange(0, 1).Draw(t, "cutplus"))
+				}
+			case 3:
+				cut = 41 * 256
+			default:
+				cut = -1
+			}
+			c.Steps = append(c.Steps, MWStep{Op: "vacuum", W: w, Cut: cut})
 		}
 	}
 	return c
@@ -180,6 +210,9 @@ type mwRun struct {
 	effective []bool // per issued statement: did it add an operation when first run
 	writersOfKey map[string]map[int]bool
 	spec   TableSpec
+	snaps  []verSnap
+	snapAt map[string]int
+	farVacuumed bool
 }
 
 const mwCols = "k primary key, a, b, c"
@@ -235,6 +268,7 @@ func (r *mwRun) publish(w *mwWriter) error {
 		r.pub[name] = w.view.Clone()
 	}
 	r.all.Union(w.view)
+	r.recordSnap(v, w.view.Rows(wideCols))
 	return nil
 }
 
@@ -319,8 +353,29 @@ func (r *mwRun) observe(st *fakes3.Store, readonly bool, perm []int, client stri
 }
 
 // observeAll: all readers of the same set of committed versions must agree.
+// expectCurrent is what a reader that merges every current version must see.
+func (r *mwRun) expectCurrent(st *fakes3.Store, withMerged bool) (MSet, error) {
+	u := MSet{}
+	names := currentVersions(st, r.prefix)
+	if withMerged {
+		names = append(names, mergedVersions(st, r.prefix)...)
+	}
+	for _, n := range names {
+		p, ok := r.pub[n]
+		if !ok {
+			return nil, fmt.Errorf("harness bug: version %s was never recorded", n)
+		}
+		u.Union(p)
+	}
+	return u, nil
+}
+
 func (r *mwRun) observeAll(perm []int, where string) error {
-	want := r.all.Rows(wideCols)
+	wantSet, err := r.expectCurrent(r.store, false)
+	if err != nil {
+		return fmt.Errorf("%s: %v", where, err)
+	}
+	want := wantSet.Rows(wideCols)
 	frontier := len(r.currentNames())
 	contended := false
 	for _, m := range r.writersOfKey {
@@ -329,7 +384,9 @@ func (r *mwRun) observeAll(perm []int, where string) error {
 		}
 	}
 	if frontier >= 3 && contended {
-		r.o.NonTrivial = true
+		if r.c.Mode == "" {
+			r.o.NonTrivial = true
+		}
 		r.o.Class("observe-frontier>=3-contended")
 	}
 	if frontier >= 2 {
@@ -373,6 +430,12 @@ func (r *mwRun) observeAll(perm []int, where string) error {
 	}
 	if n > 0 {
 		r.o.Class("observe-with-ancestors")
+		ws, err := r.expectCurrent(anc, false)
+		if err != nil {
+			return fmt.Errorf("%s: %v", where, err)
+		}
+		want = ws.Rows(wideCols)
+		first = nil
 		if err := try("reader with all retired versions listed as current again (read-write)", anc, false, perm); err != nil {
 			return err
 		}
@@ -386,7 +449,11 @@ func (r *mwRun) observeAll(perm []int, where string) error {
 // quiescence: re-opening a table nobody writes to stops producing versions.
 func (r *mwRun) quiescence(where string) error {
 	st := r.store.Clone()
-	want := r.all.Rows(wideCols)
+	wantSet, err := r.expectCurrent(st, false)
+	if err != nil {
+		return fmt.Errorf("%s: %v", where, err)
+	}
+	want := wantSet.Rows(wideCols)
 	for i := 0; i < 3; i++ {
 		from := st.LogLen()
 		rows, err := r.observe(st, false, []int{i, i, i}, fmt.Sprintf("q%d", i))
@@ -397,7 +464,7 @@ func (r *mwRun) quiescence(where string) error {
 			return fmt.Errorf("%s: quiescent open %d: rows differ from the reference model.\ns3db:\n%smodel:\n%s", where, i, rows, want)
 		}
 		cur := currentVersions(st, r.prefix)
-		if len(r.all) > 0 && len(cur) != 1 {
+		if len(cur) > 1 {
 			return fmt.Errorf("%s: after read-write open %d of a quiescent table %d versions are current: %v", where, i, len(cur), cur)
 		}
 		if i >= 1 {
@@ -469,13 +536,19 @@ func (r *mwRun) step(i int, s MWStep) error {
 		if err != nil {
 			return fmt.Errorf("%s: refresh: %v", where, err)
 		}
+		// a refresh re-opens the table from the bucket: the new state is the merge of the
+		// current versions and nothing else (the handle's previous state is in there
+		// because its last commit is current or an ancestor of a current version; after
+		// a vacuum further down that lineage it legitimately is not)
+		nv := MSet{}
 		for _, n := range names {
 			if p, ok := r.pub[n]; ok {
-				w.view.Union(p)
+				nv.Union(p)
 			} else {
 				return fmt.Errorf("%s: harness bug: current version %s was never recorded", where, n)
 			}
 		}
+		w.view = nv
 		if len(names) >= 2 {
 			r.o.Class("refresh-merging>=2")
 		}
@@ -547,6 +620,8 @@ func (r *mwRun) step(i int, s MWStep) error {
 		return nil
 	case "observe":
 		return r.observeAll(s.Perm, where)
+	case "vacuum":
+		return r.vacuumStep(s, where)
 	}
 	return fmt.Errorf("bad step %q", s.Op)
 }
